@@ -127,6 +127,12 @@ def run(ctx, rep):
 
     # ------------------------------------------------------------------- S4
     _s4(ctx, rep)
+    rep.rule("S6", "equality projections write the constants their parametrisation implies over the WHOLE constrained part (State "
+                   "coefficient 0, Gate row 0 = e0 over all d^2 entries, Povm shift sqrt(d)/m e0): rule I5 of C03 on the projection bodies",
+             floor=4)
+    from ..report import Relay
+    from . import c03
+    c03._check_constants(ctx, Relay(rep, {"I5": "S6"}, keep=lambda f_, con_: "calc_proj_eq_constraint" in (getattr(f_, "qualname", None) or str(f_))))
 
 
 def _first_stmt_value(f: Func, name: str):
